@@ -212,6 +212,38 @@ D15_CANARY_PENDING = {
 }
 
 
+def two_runs_program(rng):
+    """two simulations sharing date-condition objects; the first is aborted by a failure before
+    the dates - every wait for them unwound - and let go of just before the second is made"""
+    start = rng.choice([0, 0, 3, 0.5])
+    shared = [{'k': rng.choice(['ge', 'ge', 'eq']), 't': start + rng.choice([4, 6, 10]),
+               'share': 'n%d' % number} for number in range(rng.randint(1, 2))]
+    body = [{'op': 'wait', 'n': {'k': 'delay', 'd': rng.choice([1, 2, 3])}, 'id': 'a1'},
+            {'op': 'raise', 'kind': 'err', 'tag': 'abort', 'id': 'a2'}]
+    for depth, spec in enumerate(shared):
+        body = [{'op': 'scope', 'id': 'ab%d' % depth, 'n': dict(spec), 'children': [],
+                 'catch': False, 'body': body}]
+    first = {'objects': {}, 'roots': [{'name': 'r0', 'steps': body}], 'start': start,
+             'till': None}
+    roots = []
+    for number in range(rng.randint(1, 3)):
+        roots.append({'name': 'w%d' % number, 'steps': [
+            {'op': 'wait', 'n': dict(rng.choice(shared)), 'id': 'w%d' % number},
+            {'op': 'wait', 'n': {'k': 'delay', 'd': 1}, 'id': 'x%d' % number}]})
+    second = {'objects': {}, 'roots': roots, 'start': rng.choice([start, start, 0]),
+              'till': None}
+    return {'two_runs': [first, second]}
+
+
+def _loop_sized_junk(count):
+    """objects of the size (allocator class) of an event loop"""
+    import sys as _sys
+    from usim._core.loop import Loop
+    slots = max(1, (_sys.getsizeof(Loop.__new__(Loop)) - 16) // 8)
+    junk_type = type('Junk', (), {'__slots__': tuple('s%d' % n for n in range(slots))})
+    return [junk_type() for _ in range(count)]
+
+
 def build(seed, index):
     if index < 0:
         # fixed program in which known finding D15 strikes (see C03): its consequence - the
@@ -224,6 +256,8 @@ def build(seed, index):
         return pipe_program(rng)
     if rng.random() < 0.03:
         return crowd_program(rng)
+    if rng.random() < 0.03:
+        return two_runs_program(rng)
     if rng.random() < 0.04:
         return integer_clock_program(rng)
     # a few programs start at a date so large that small positive delays are lost in float
@@ -233,13 +267,38 @@ def build(seed, index):
     return gen.program()
 
 
+def build_single(seed, index):
+    """a program for callers that run one simulation per program"""
+    program = build(seed, index)
+    return program['two_runs'][1] if 'two_runs' in program else program
+
+
 def normalise(event):
     return json.dumps(event, default=repr, sort_keys=True)
 
 
-def run_once(program):
+def run_once(program, perturb=0):
     sess = Session()
-    env, outcome = execute(program, sess)
+    if 'two_runs' in program:
+        import gc
+        first, program = program['two_runs']
+        env, outcome = execute(first, sess)
+        used = dict(env.shared)
+        holder = [env, sess, outcome]
+        del env, outcome
+        sess = Session()
+        junk = []
+
+        def prepare(env):
+            env.shared.update(used)
+            holder.clear()
+            gc.collect()
+            # unrelated allocations between the two simulations (not part of the program)
+            junk.extend(_loop_sized_junk(perturb))
+        env, outcome = execute(program, sess, prepare)
+        del junk
+    else:
+        env, outcome = execute(program, sess)
     lines = [normalise(ev) for ev in sess.events]
     lines.append('outcome:%s' % env.outcome)
     digest = hashlib.sha1('\n'.join(lines).encode()).hexdigest()
@@ -277,7 +336,7 @@ def main(argv):
         digest, trace_digest, lines, sess, concurrent_steps = run_once(program)
         # the same program again in the same process, after unrelated allocations
         junk = [bytearray(random.Random(index).randrange(10, 5000)) for _ in range(50)]
-        digest2, trace_digest2, lines2, sess2, _ = run_once(program)
+        digest2, trace_digest2, lines2, sess2, _ = run_once(program, perturb=3)
         del junk
         record = {
             'index': index, 'digest': digest, 'trace': trace_digest,
